@@ -62,6 +62,22 @@ Theorem resume_sound_tls13_and_preserves_partial_ideal : ideal_aead blob seal op
                   s_origin s = s_origin v0.
 Proof. exact (resume_sound_preserves13 blob seal open tamper junk). Qed.
 
+(* a declined offer leaves no trace: a connection that completes without resumption (whatever ticket /
+   ID / PSK was offered and for whatever reason it was declined: expired, other PRF hash, wrong version,
+   altered, foreign key, invalidated) has, on the server, only the client identity proved on THIS
+   connection, its own origin, the hello's server name, the negotiated suite, and is not marked resumed
+   on either end *)
+Theorem declined_leaves_no_trace :
+  forall w cp sv cr,
+  let r := d_log blob (conn_delta blob seal open w cp sv) in
+  r_out r = ODone false cr ->
+  cr = false /\
+  exists h s, r_hello r = Some h /\ r_sview r = Some s /\
+    s_ccert s = (if sv_reqcert (sv_cfg sv) then cp_ccert cp else 0) /\
+    s_origin s = Z.of_nat (length (w_log w)) /\ s_suite s = o_fsuite cp /\ s_sni s = h_sni h /\
+    r_src r = None.
+Proof. exact (Proofs.C13_Thms.declined_leaves_no_trace blob seal open). Qed.
+
 (* altered, forged or foreign ticket bytes: the server declines (and tries nothing else) *)
 Theorem ticket_forgery_rejected_ideal : ideal_aead blob seal open tamper junk ->
   forall cfg st acc (h : hello blob) now b,
